@@ -1,7 +1,7 @@
 """py2meth: translate straight-line methods / functions whose statements are library calls into Lean, the library calls getting
 their meaning from a hand-written "world" (`Model/LossWorld.lean`, `Model/DistPublicWorld.lean`).  Stdlib `ast` only; the source is
 parsed, never imported.  Sibling of `py2loop.py` (same discipline, different subset): every statement of every function listed in
-a typing sheet (`targets_losses.py`, `targets_dist_public.py`) is translated or the function is REFUSED (an error entry in the
+a typing sheet (`targets_losses.py`, `targets_dist_public.py`, `targets_families.py` with world `Model/FamiliesWorld.lean`) is translated or the function is REFUSED (an error entry in the
 generation report = a broken tie).
 
 The translation is TYPED: the sheet gives the Lean type of every parameter / class field and a table of primitives
@@ -17,6 +17,14 @@ types: `dist.log_prob(x, c)` on a point and on a batch are different world funct
                (`()`, `(n,)`, `(*s, 2)`), list displays, `{"k": …}[m.__name__]` (a `match` on an enumeration), `a if c else b`,
                `x or None`, f-strings of strings, single-generator comprehensions, `vmap(f)(…)` / `eqx.filter_vmap(f)(…)`,
                calls of generated functions, and the primitives of the sheet.
+
+`Ctor` items (sheet `targets_families.py`): a class `__init__` translated statement by statement — local assignments, `self.<f> = e`,
+`self.<f>, x = e`, reads of already assigned `self.<f>`, calls of other generated constructors with positional / keyword arguments
+(`Affine(loc=minval, scale=maxval - minval)`), `*(f(v) for v in (e1, …, ek))` over a tuple DISPLAY (= the k arguments in order), list
+displays whose members are injected into a declared sum type (`UPCAST`), exact source texts containing a lambda (`TEXT_PRIMS`, possibly
+raising); the result is a structure of the WORLD built with named fields, every attribute assigned exactly once, anything else refused.
+An import alias may be expected per file (`IMPORTS[alias] = {file: binding}`), and a generated constructor is recognised in a client
+module only if its name is bound there to what the sheet says (`bound_as`).
 
 A function that contains a guard or calls a primitive that can raise is emitted in the sheet's monad (`Option` / `Except PyErr`)
 with explicit `bind`s; every other function is emitted pure.
